@@ -1111,6 +1111,48 @@ impl DPEventLoop {
       .map(|r| r.verif_matched_writers())
       .unwrap_or_default()
   }
+  /// a datagram arrives: what event_loop() does with every packet of a readable listener
+  pub(crate) fn verif_receive(&mut self, packet: &bytes::Bytes) {
+    self.message_receiver.handle_received_packet(packet);
+  }
+  /// One turn of event_loop() for the channels a rig uses: ask the real Poll what is ready (without
+  /// blocking) and dispatch the ACKNACK channel and the writers' command channels the way
+  /// event_loop() does. Returns the number of events dispatched.
+  pub(crate) fn verif_turn(&mut self) -> usize {
+    let mut events = Events::with_capacity(64);
+    self
+      .poll
+      .poll(&mut events, Some(Duration::from_millis(0)))
+      .expect("Failed in waiting of poll.");
+    let mut n = 0;
+    for event in events.iter() {
+      match EntityId::from_token(event.token()) {
+        TokenDecode::FixedToken(ACKNACK_MESSAGE_TO_LOCAL_WRITER_TOKEN) => {
+          self.handle_writer_acknack_action(&event);
+          n += 1;
+        }
+        TokenDecode::Entity(eid) if eid.kind().is_writer() => {
+          if let Some(w) = self.writers.get_mut(&eid) {
+            w.process_writer_command();
+            n += 1;
+          }
+        }
+        _ => {}
+      }
+    }
+    n
+  }
+  pub(crate) fn verif_writer_proxy(
+    &self,
+    writer_eid: EntityId,
+    reader: GUID,
+  ) -> crate::verif::writer_rig::ProxyView {
+    self
+      .writers
+      .get(&writer_eid)
+      .map(|w| w.verif_proxy(reader))
+      .unwrap_or_default()
+  }
 }
 
 #[cfg(test)]
